@@ -94,3 +94,50 @@ Proof.
   destruct H2 as [A [B C]]. destruct HW as [A' [B' C']]. unfold denied, dperm_or.
   cbn [dp_cut dp_proof dp_create]. rewrite A, B, C, A', B', C'. auto.
 Qed.
+
+(* ------------------------------------------------------------------ RFC 9520 failure state *)
+(* why serving the SHARED failure entry to a subnet-bearing query is within the property: it is
+   consulted only when no request scope is derived (or the /0 one: a source prefix of length 0 says
+   nothing about the client), and then NOTHING of the client's address goes upstream for this query — its resolution is the one any client without the option would trigger,
+   so the cached outcome of that resolution is as shared as a SCOPE-0 answer is *)
+Lemma shared_failure_only_when_subnet_blind pol remote opts :
+  failure_consults_shared pol remote opts = true ->
+  forwarded pol (addr_from_slice_unmap remote) opts = [] \/
+  exists f, forwarded pol (addr_from_slice_unmap remote) opts = [OEcs f] /\ e_mask f = 0.
+Proof.
+  unfold failure_consults_shared, forwarded. destruct opts as [l|]; [|left; reflexivity].
+  destruct (new_opts_shape pol (addr_from_slice_unmap remote) l) as [E|[cs0 [f [E _]]]]; [intros _; left; exact E|].
+  rewrite E. destruct (forwarded_ecs_has_request_scope pol (addr_from_slice_unmap remote) l f E) as [a [_ [HR _]]].
+  rewrite HR. cbn [normalize_scope p_bits]. destruct (N.eqb_spec (e_mask f) 0) as [Z|NZ]; [|discriminate].
+  intros _. right. exists f. split; [reflexivity|exact Z].
+Qed.
+
+(* conversely a query for which a subnet longer than /0 IS forwarded never gets the shared failure entry *)
+Lemma forwarded_subnet_skips_shared_failure pol remote l f :
+  new_opts pol (addr_from_slice_unmap remote) l = [OEcs f] -> e_mask f <> 0 ->
+  failure_consults_shared pol remote (Some l) = false.
+Proof.
+  intros E NZ. unfold failure_consults_shared, forwarded. rewrite E.
+  destruct (forwarded_ecs_has_request_scope pol (addr_from_slice_unmap remote) l f E) as [a [_ [HR _]]].
+  rewrite HR. cbn [normalize_scope p_bits]. destruct (N.eqb_spec (e_mask f) 0); [contradiction|reflexivity].
+Qed.
+
+(* the failure rung of the byte ladder adds nothing to the decoded body *)
+Lemma wire_failure_gate_refines pol remote opts rd :
+  wire_failure_gate rd (match opts with Some l => has_ecs l | None => false end) = true ->
+  failure_consults_shared pol remote opts = true.
+Proof.
+  unfold wire_failure_gate. destruct rd; [|discriminate]. cbn [andb].
+  destruct (match opts with Some l => has_ecs l | None => false end) eqn:E; [discriminate|]. intros _.
+  unfold failure_consults_shared, forwarded.
+  assert (match opts with Some l => new_opts pol (addr_from_slice_unmap remote) l | None => [] end = []) as HF.
+  { destruct opts as [l|]; [|reflexivity]. apply new_opts_no_client_ecs. exact E. }
+  rewrite HF. unfold request_scope. destruct (negb (allows pol (addr_from_slice_unmap remote))); reflexivity.
+Qed.
+
+Example shared_failure_example :
+  (* no policy: a subnet-bearing query consults the shared failure entry; policy on: it does not *)
+  failure_consults_shared None (mk_ipb 4 3405803853) (Some [OEcs (mk_ecs 1 24 0 (mk_ipb 4 3405803776))]) = true /\
+  failure_consults_shared (Some (mk_policy true 24 56 [] 24 56)) (mk_ipb 4 3405803853)
+                          (Some [OEcs (mk_ecs 1 24 0 (mk_ipb 4 3405803776))]) = false.
+Proof. vm_compute. split; reflexivity. Qed.
